@@ -41,6 +41,7 @@ def job(cfg):
     SK.USE_FLOORS[0] = bool(cfg.get("floors"))
     kind, K, mode, box = cfg["kind"], cfg["K"], cfg["mode"], cfg["box"]
     timeout = cfg["timeout"]
+    inv = bool(cfg.get("inverse"))  # the inverse=True evaluation is an increasing map of [bottom, top] onto [left, right]
     R = sc.new_registry()
     solver = smt.Z3Proc()
     ex = explore.Explorer(R, solver, decide_timeout=cfg.get("decide_timeout", 10.0))
@@ -50,15 +51,17 @@ def job(cfg):
         x, params, bx = SK.sym_setup(kind, K, mode, box=box)
         holder["x"], holder["bx"] = x, bx
         with stubs.torch_patches():
-            out, lad = SK.call(kind, mode, x, params, bx, inverse=False)
+            out, lad = SK.call(kind, mode, x, params, bx, inverse=inv)
         return out, lad
 
     results = ex.explore(fn)
     jr = {"kernel": "%s/%s" % (kind, mode), "paths": len(results), "exception_paths": 0, "outcomes": [], "violations": [], "inconclusive": [], "samples": [], "syntactic": 0, "prune_queries": ex.stats["prune_queries"], "validated": 0}
     xt = holder["x"].a[0].t
     left, right, bottom, top = SK.box_terms(mode, holder["bx"])
+    if inv:
+        left, right, bottom, top = bottom, top, left, right
     rets = []
-    tag = "%s/%s/K=%d/box=%s%s" % (kind, mode, K, box, "/floors" if cfg.get("floors") else "")
+    tag = "%s/%s/K=%d/box=%s%s%s" % (kind, mode, K, box, "/floors" if cfg.get("floors") else "", "/inverse" if inv else "")
 
     def record(o, path, relation, extra=None):
         jr["outcomes"].append(o.as_dict())
@@ -68,10 +71,10 @@ def job(cfg):
             return
         if o.status == "sat" and o.expect == "unsat":
             leaves = C.leaf_values(R, o.model)
-            rep = replay_case({"kind": kind, "K": K, "mode": mode, "relation": relation, "leaves": leaves})
-            payload = {"property": PROP, "kernel": jr["kernel"], "cfg": cfg, "relation": relation, "leaves": leaves, "path": path.describe() if path else None, "replay_result": rep, "replay_call": {"fn": "harness.C09:replay_case", "args": {"case": {"kind": kind, "K": K, "mode": mode, "relation": relation, "leaves": leaves}}}}
+            rep = replay_case({"kind": kind, "K": K, "mode": mode, "relation": relation, "leaves": leaves, "inverse": inv, "floors": bool(cfg.get("floors"))})
+            payload = {"property": PROP, "kernel": jr["kernel"], "cfg": cfg, "relation": relation, "leaves": leaves, "path": path.describe() if path else None, "replay_result": rep, "replay_call": {"fn": "harness.C09:replay_case", "args": {"case": {"kind": kind, "K": K, "mode": mode, "relation": relation, "leaves": leaves, "inverse": inv, "floors": bool(cfg.get("floors"))}}}}
             if rep["reproduced"]:
-                p = C.write_replay(PROP, "%s_%s_K%d_%s_%s" % (kind, mode, K, box, relation), payload)
+                p = C.write_replay(PROP, "%s_%s_K%d_%s_%s%s" % (kind, mode, K, box, relation, "_inverse" if inv else ""), payload)
                 jr["violations"].append({"kernel": jr["kernel"], "relation": relation, "signature": {"K": K, "box": box}, "replay": p, "detail": rep})
             else:
                 jr["inconclusive"].append({"query": o.name, "why": "solver model did not reproduce on the real code", "leaves": leaves, "replay": rep})
@@ -161,6 +164,9 @@ def job(cfg):
         lv = SK.random_leaves(kind, K, mode, rng, box=(box != "unit"))
         if box == "square" and "w" in lv:
             lv["h"] = lv["w"]
+        if inv and mode == "box":
+            lo_, hi_ = (lv["bottom"], lv["bottom"] + lv["h"]) if "bottom" in lv else (0.0, 1.0)
+            lv["x_0"] = rng.uniform(lo_, hi_)
         env, funcs = C.shortcut_env(R, lv)
         hit = None
         for i, p, y, l in rets:
@@ -171,7 +177,7 @@ def job(cfg):
             continue
         i, p, y, l = hit
         xr, pr, bxr = SK.real_args(kind, K, mode, lv)
-        yr, lr, gr = SK.autograd_derivative(kind, mode, xr, pr, bxr, False)
+        yr, lr, gr = SK.autograd_derivative(kind, mode, xr, pr, bxr, inv)
         ys = tm.evaluate(y.t, env, funcs)
         ds = tm.evaluate((y.d or {}).get(0, tm.ZERO), env, funcs)
         if abs(ys - float(yr[0])) > 1e-7 * max(1, abs(ys)) or abs(ds - float(gr[0])) > 1e-6 * max(1, abs(ds)):
@@ -188,12 +194,17 @@ def replay_case(case):
     kind, K, mode, rel, lv = case["kind"], case["K"], case["mode"], case["relation"], case["leaves"]
     x, params, bx = SK.real_args(kind, K, mode, lv)
     res = {"reproduced": False}
+    inv = bool(case.get("inverse"))
+    if "floors" in case:
+        SK.USE_FLOORS[0] = bool(case["floors"])
     try:
         left, right = (bx.get("left", 0.0), bx.get("right", 1.0)) if mode == "box" else (-bx["tail_bound"], bx["tail_bound"])
         bottom, top = (bx.get("bottom", 0.0), bx.get("top", 1.0)) if mode == "box" else (left, right)
+        if inv:
+            left, right, bottom, top = bottom, top, left, right
         if rel in ("end-left", "end-right"):
             x = torch.tensor([left if rel == "end-left" else right], dtype=torch.float64)
-        y, lad, g = SK.autograd_derivative(kind, mode, x, params, bx, False)
+        y, lad, g = SK.autograd_derivative(kind, mode, x, params, bx, inv)
         yv, gv = float(y[0]), float(g[0])
         res.update({"x": float(x[0]), "y": yv, "dy_dx": gv, "box": [left, right, bottom, top]})
         tol = 1e-9 * max(1.0, abs(top - bottom))
@@ -207,8 +218,8 @@ def replay_case(case):
             res["reproduced"] = abs(yv - top) > tol
         elif rel == "cont":
             eps = 1e-9 * max(1.0, abs(float(x[0])))
-            y1, _, _ = SK.autograd_derivative(kind, mode, x - eps, params, bx, False)
-            y2, _, _ = SK.autograd_derivative(kind, mode, x + eps, params, bx, False)
+            y1, _, _ = SK.autograd_derivative(kind, mode, x - eps, params, bx, inv)
+            y2, _, _ = SK.autograd_derivative(kind, mode, x + eps, params, bx, inv)
             res["neighbours"] = [float(y1[0]), float(y2[0])]
             res["reproduced"] = abs(float(y1[0]) - float(y2[0])) > 1e-5 * max(1.0, abs(top - bottom))
         elif rel.startswith("obligation"):
@@ -234,6 +245,12 @@ def configs(tier):
     # non-default and mutually different floors (min_bin_width != min_bin_height != min_derivative)
     for kind in ("rq", "quadratic", "cubic"):
         cfgs.append({"kind": kind, "K": 2, "mode": "box", "box": "unit", "floors": True, "timeout": 60 if tier == "quick" else 600, "nval": 8})
+    # the inverse=True evaluation as a map of the output interval onto the input interval: decided for the linear
+    # family (the others' inverse formulas - nested square roots - stay undecided within the caps; their inverse
+    # direction is covered through the round trip of C02 and the forward bijection here)
+    for K in Ks:
+        for mode, box in (("box", "sym"), ("tails", "sym")):
+            cfgs.append({"kind": "linear", "K": K, "mode": mode, "box": box, "inverse": True, "timeout": 60 if tier == "quick" else 600, "nval": 8})
     return cfgs
 
 
